@@ -14,6 +14,10 @@
        of a fresh reader on the remaining events.
    (eof)   At end of input next() returns None iff nothing is pending (count 0), otherwise
        IoErr(Eof, n) once; every further call returns None.
+   (pause) A source that reports end of input in the middle and then delivers again (an io::Read
+       returning Ok(0), an iterator that is not fused) costs the frame in flight exactly like
+       any other error: IoErr(Eof, n) with the pending count, decoder reset, reading resumes
+       with the next event.
    read_nb / next_nb are renamings of read / next by definition of the model (Reader.v).
    This file contains the statements only. *)
 Require Export Sml.Base.Prelude Sml.Base.Crc Sml.Spec.Frame Sml.Model.Decode Sml.Model.Frontends.
@@ -37,6 +41,11 @@ Theorem C11_wouldblock_untouched : forall (cap : cap_t) (k : skind) (d : dec) (e
   dr_read cap (mkrd d k (SWouldBlock :: evs)) = (mkrd d k evs, RdIoErr EkWouldBlock 0).
 Proof. exact dr_read_wb. Qed.
 Print Assumptions C11_wouldblock_untouched.
+
+Theorem C11_pause : forall (cap : cap_t) (d : dec) (evs : list sev),
+  dr_read cap (mkrd d KIo (SZero :: evs)) = (mkrd (fst (reset d)) KIo evs, RdIoErr EkEof (reset_cnt d)).
+Proof. intros cap d evs. reflexivity. Qed.
+Print Assumptions C11_pause.
 
 Theorem C11_other : forall (cap : cap_t) (k : skind) (d : dec) (evs : list sev) (lim : nat),
   snd (rd_all cap (S lim) (mkrd d k (SOther :: evs))) =
